@@ -3,7 +3,7 @@
 # records of FULL runs; then the extension suites.  One line per check.
 cd "$(dirname "$0")/.."
 IDS=$(python3 -c "import json;print(' '.join(c['property_id'] for c in json.load(open('MANIFEST.json'))['checks']))")
-for id in $IDS X01 X02 X03 X04 X05 X06 X07 X08 X09 X10 X11 X12 X13 X14 X15 X16 X17 X18; do
+for id in $IDS X01 X02 X03 X04 X05 X06 X07 X08 X09 X10 X11 X12 X13 X14 X15 X16 X17 X18 X19; do
   out=$(./check $id --tier quick 2>&1); rc=$?
   echo "$id rc=$rc $(echo "$out" | grep -c '^VIOLATION\|^DISAGREEMENT') alarms | $(echo "$out" | grep 'tier=' | cut -c1-150)"
   if [ $rc -ne 0 ]; then echo "$out" | grep -E "VIOLATION|DISAGREEMENT|what|MACHINERY" | head -6 | cut -c1-400; fi
